@@ -69,24 +69,150 @@ def D(op):
                 return D(op._child)
             return SymSet(st.D_uf(op.ref))
         raise TypeError("D of %r" % (op,))
-    name = type(op).__name__
-    if name == "BitLengthSet":
-        return D(op._op)
-    if name == "NullaryOperator":
-        return frozenset(op._value)
-    if name == "PaddingOperator":
-        return frozenset(st.native_pad(op._padding, x) for x in D(op._child))
-    if name == "ConcatenationOperator":
-        return native_nsum(_native_children(op._children))
-    if name == "RepetitionOperator":
-        return st.native_kfold(D(op._child), op._k)
-    if name == "RangeRepetitionOperator":
-        return rangefold(D(op._child), op._k_max)
-    if name == "UnionOperator":
-        return frozenset().union(*_native_children(op._children))
-    if name == "MemoizationOperator":
-        return D(op._child)
-    raise TypeError(name)
+    return NSet.of(op)
+
+
+class NSet:
+    """Native (CPython) reading of the mathematical set denoted by an operator tree: exact answers for min, max and
+    residues even when the set is far too large to enumerate (repetition counts up to 2**63): residues of k-fold sums are
+    computed by square-and-multiply in the monoid of subsets of Z/d under set addition (no count reduction lemma is used);
+    'at most K' residues by iterating U_{j+1} = {0} u (U_j + A) until it is stable (at most d steps)."""
+
+    def __init__(self, kind, *args):
+        self.kind, self.args = kind, args
+
+    @staticmethod
+    def of(op):
+        name = type(op).__name__
+        if name == "BitLengthSet":
+            return NSet.of(op._op)
+        if name == "NullaryOperator":
+            return NSet("leaf", frozenset(op._value))
+        if name == "PaddingOperator":
+            return NSet("pad", NSet.of(op._child), op._padding)
+        if name == "ConcatenationOperator":
+            return NSet("cat", [NSet.of(c) for c in op._children])
+        if name == "RepetitionOperator":
+            return NSet("rep", NSet.of(op._child), op._k)
+        if name == "RangeRepetitionOperator":
+            return NSet("rng", NSet.of(op._child), op._k_max)
+        if name == "UnionOperator":
+            return NSet("uni", [NSet.of(c) for c in op._children])
+        if name == "MemoizationOperator":
+            return NSet.of(op._child)
+        raise TypeError(name)
+
+    # -- exact analytic answers
+    def min(self):
+        k, a = self.kind, self.args
+        if k == "leaf":
+            return min(a[0])
+        if k == "pad":
+            return st.native_pad(a[1], a[0].min())
+        if k == "cat":
+            return sum(c.min() for c in a[0])
+        if k == "rep":
+            return a[0].min() * a[1]
+        if k == "rng":
+            return 0
+        if k == "uni":
+            return min(c.min() for c in a[0])
+        if k == "mod":
+            return min(self.elements())
+        return min(self.elements())
+
+    def max(self):
+        k, a = self.kind, self.args
+        if k == "leaf":
+            return max(a[0])
+        if k == "pad":
+            return st.native_pad(a[1], a[0].max())
+        if k == "cat":
+            return sum(c.max() for c in a[0])
+        if k == "rep":
+            return a[0].max() * a[1]
+        if k == "rng":
+            return a[0].max() * a[1]
+        if k == "uni":
+            return max(c.max() for c in a[0])
+        return max(self.elements())
+
+    def residues(self, d):
+        import math
+
+        k, a = self.kind, self.args
+        if k == "leaf":
+            return frozenset(x % d for x in a[0])
+        if k == "set":
+            return frozenset(x % d for x in a[0])
+        if k == "pad":
+            # pad(r, x) mod d depends on x mod lcm(r, d) only (Lean Pad.pad_mod)
+            m = math.lcm(a[1], d)
+            return frozenset(st.native_pad(a[1], x) % d for x in a[0].residues(m))
+        if k == "cat":
+            out = frozenset([0])
+            for c in a[0]:
+                r = c.residues(d)
+                out = frozenset((x + y) % d for x in out for y in r)
+            return out
+        if k == "uni":
+            return frozenset().union(*[c.residues(d) for c in a[0]])
+        if k == "rep":
+            base = a[0].residues(d)
+            out = frozenset([0])
+            n = a[1]
+            while n > 0:
+                if n & 1:
+                    out = frozenset((x + y) % d for x in out for y in base)
+                base = frozenset((x + y) % d for x in base for y in base)
+                n >>= 1
+            return out
+        if k == "rng":
+            base = a[0].residues(d)
+            cur = frozenset([0])
+            for _ in range(min(a[1], d + 1)):
+                nxt = cur | frozenset((x + y) % d for x in cur for y in base)
+                if nxt == cur:
+                    break
+                cur = nxt
+            return cur
+        if k == "mod":
+            return frozenset(x % d for x in a[0].residues(a[1]))
+        raise TypeError(k)
+
+    def elements(self):
+        k, a = self.kind, self.args
+        if k in ("leaf", "set"):
+            return frozenset(a[0])
+        if k == "pad":
+            return frozenset(st.native_pad(a[1], x) for x in a[0].elements())
+        if k == "cat":
+            return native_nsum([c.elements() for c in a[0]])
+        if k == "rep":
+            if a[1] > 40:
+                raise OverflowError("set too large to enumerate")
+            return st.native_kfold(a[0].elements(), a[1])
+        if k == "rng":
+            if a[1] > 40:
+                raise OverflowError("set too large to enumerate")
+            return st.rangefold(a[0].elements(), a[1])
+        if k == "uni":
+            return frozenset().union(*[c.elements() for c in a[0]])
+        if k == "mod":
+            return a[0].residues(a[1])
+        raise TypeError(k)
+
+    def __iter__(self):
+        return iter(self.elements())
+
+    def __len__(self):
+        return len(self.elements())
+
+    def __eq__(self, other):
+        return self.elements() == (other.elements() if isinstance(other, NSet) else frozenset(other))
+
+    def __hash__(self):
+        return 0
 
 
 def DVAL(v):
@@ -103,8 +229,8 @@ def DVAL(v):
     if hasattr(v, "_op") or type(v).__name__.endswith("Operator"):
         return D(v)
     if isinstance(v, int):
-        return frozenset([v])
-    return frozenset(v)
+        return NSet("set", frozenset([v]))
+    return NSet("set", frozenset(v))
 
 
 def DSEQ_NSUM(seq):
@@ -115,7 +241,7 @@ def DSEQ_NSUM(seq):
         items = seq.items if isinstance(seq, PyList) else list(seq)
         s = st.seq_of_sets(speclib.CTX, [DVAL(x) for x in items])
         return SymSet(st.nsum(s.arr, s.length))
-    return native_nsum([DVAL(x) for x in seq])
+    return NSet("cat", [DVAL(x) for x in seq])
 
 
 def DSEQ_UNION(seq):
@@ -125,7 +251,7 @@ def DSEQ_UNION(seq):
         items = seq.items if isinstance(seq, PyList) else list(seq)
         s = st.seq_of_sets(speclib.CTX, [DVAL(x) for x in items])
         return SymSet(st.unions_f(s.arr, s.length))
-    return frozenset().union(*[DVAL(x) for x in seq])
+    return NSet("uni", [DVAL(x) for x in seq])
 
 
 def _dseq(seq: SymSeq):
@@ -559,7 +685,7 @@ def _union2(a, b):
     if smt():
         x = z3.FreshConst(z3.IntSort(), "x")
         return SymSet(z3.Lambda([x], z3.Or(z3.Select(st._t(a), x), z3.Select(st._t(b), x))))
-    return frozenset(a) | frozenset(b)
+    return NSet("uni", [a, b])
 
 
 _binary("__add__", sumset, True)
@@ -587,7 +713,7 @@ class _BlsLen:
 def CARD(A):
     if smt():
         return speclib.CTX.engine.uf("card", st.S, z3.IntSort())(st._t(A))
-    return len(A)
+    return len(A.elements()) if hasattr(A, "elements") else len(A)
 
 
 NOT_COVERED = ["the deprecated aliases elementwise_sum_*; __str__/__repr__; the wall-clock assertion in "
@@ -604,20 +730,26 @@ NATIVE = NativeSuite()
 NATIVE_BUDGET = {"quick": 60, "thorough": 1500}
 
 
+allow_big = [False]  # huge counts only for queries that do not expand the set
+
+
 def _gen_tree(rng, depth, root=None):
     kinds = ["leaf", "pad", "cat", "rep", "rng", "uni"]
     k = root or (rng.choice(kinds) if depth > 0 else "leaf")
     if k == "leaf" or depth <= 0 and root is None:
+        if rng.random() < 0.3:
+            return ["leaf", sorted(rng.sample([0, 8, 16, 24, 32, 40, 48, 56, 64, 72, 80, 96], rng.choice([2, 3])))]
         return ["leaf", sorted(rng.sample(range(0, 13), rng.choice([1, 1, 2, 3])))]
     sub = lambda: _gen_tree(rng, depth - 1)
     if k == "pad":
         return ["pad", rng.choice([1, 2, 3, 4, 8]), sub()]
     if k == "cat":
         return ["cat", [sub() for _ in range(rng.choice([1, 2, 3]))]]
+    big = [2 ** 53 + 2, 2 ** 60 + 3, 2 ** 63, 2 ** 63 - 1, 1000, 257, 64, 33]
     if k == "rep":
-        return ["rep", rng.choice([0, 1, 2, 3, 5]), sub()]
+        return ["rep", rng.choice([0, 1, 2, 3, 5] if (rng.random() < 0.7 or not allow_big[0]) else big), sub()]
     if k == "rng":
-        return ["rng", rng.choice([0, 1, 2, 3, 4]), sub()]
+        return ["rng", rng.choice([0, 1, 2, 3, 4] if (rng.random() < 0.7 or not allow_big[0]) else big), sub()]
     if k == "uni":
         return ["uni", [sub() for _ in range(rng.choice([1, 2, 3]))]]
     if k == "memo":
@@ -648,7 +780,11 @@ def _build_tree(t):
 
 def _op_case(root, method):
     def gen(rng, i):
-        return {"tree": _gen_tree(rng, 2, root), "d": rng.choice([1, 2, 3, 4, 5, 7, 8, 12, 16, 32])}
+        allow_big[0] = method in ("modulo", "min", "max")
+        try:
+            return {"tree": _gen_tree(rng, 2, root), "d": rng.choice([1, 2, 3, 4, 5, 7, 8, 12, 16, 32, 33, 64, 65])}
+        finally:
+            allow_big[0] = False
 
     def build(desc):
         op = _build_tree(desc["tree"])
@@ -670,8 +806,21 @@ for _root, _cls in (("leaf", NULLARY), ("pad", PADDING), ("cat", CONCAT), ("rep"
 
 def _bls_case(method):
     def gen(rng, i):
-        return {"a": _gen_tree(rng, 2), "b": _gen_tree(rng, 1), "n": rng.choice([1, 2, 3, 4, 8, 16, 32]),
-                "k": rng.choice([0, 1, 2, 3]), "form": rng.choice(["bls", "int", "set"])}
+        allow_big[0] = method in ("__mod__", "is_aligned_at", "is_aligned_at_byte", "min", "max", "fixed_length")
+        try:
+            d = {"a": _gen_tree(rng, 2), "b": _gen_tree(rng, 1), "n": rng.choice([1, 2, 3, 4, 5, 8, 16, 32, 48]),
+                 "k": rng.choice([0, 1, 2, 3]), "form": rng.choice(["bls", "int", "set"])}
+            if i % 3 == 0 and method in ("concatenate", "unite", "__or__", "__ror__", "__add__", "__radd__"):
+                # near-equal operands: same min, max and residues modulo 32, different interior elements
+                lo = rng.choice([0, 8, 3])
+                mid = rng.choice([16, 5, 24])
+                hi = lo + rng.choice([64, 96, 128])
+                d["a"] = ["leaf", [lo, lo + mid, hi]]
+                d["b"] = ["leaf", [lo, lo + mid + 32 * rng.choice([1, 1, 2]), hi]]
+                d["form"] = rng.choice(["bls", "set"])
+            return d
+        finally:
+            allow_big[0] = False
 
     def build(desc):
         from pydsdl import BitLengthSet
@@ -682,7 +831,7 @@ def _bls_case(method):
         elif desc["form"] == "int":
             other = desc["n"]
         else:
-            other = set(D(_build_tree(desc["b"])))
+            other = set(D(_build_tree(desc["b"])).elements())
         m = method
         if m == "__mod__":
             return (lambda: a % desc["n"]), {"self": a, "divisor": desc["n"]}
